@@ -48,7 +48,7 @@ INVARIANT ResetRestores
 INVARIANT CompleteMeansAllProved
 """ + ("PROPERTY ProvedSticky\n" if props and not simulate else "") + ("INVARIANT Emit\n" if emit else "")
     return core.run_tlc(mod, cfg, workers=workers, extra_files=[(mod + ".tla", text)], timeout=3400, heap="8g",
-                        simulate=simulate, depth=(depth + 1 if simulate else None))
+                        simulate=simulate, depth=(depth + 1 if simulate else None), coverage=not simulate)
 
 
 class Stub:
@@ -108,7 +108,12 @@ def replay(tid, beh, rng):
                 if h["act"] == "setp":
                     hists = []
                     for (c, n, a, val), ps in zip(asns, h["ps"]):
-                        hh = np.full(ps["n"], float(core.fr(ps["p"])))
+                        # the history a test returns need not have the returned p-value as its minimum or last
+                        # entry (random_order=False, or a test of another design): first entry lower, last higher
+                        pv = float(core.fr(ps["p"]))
+                        hh = np.full(ps["n"], pv)
+                        if ps["n"] >= 2:
+                            hh[0], hh[-1] = pv / 2, min(1.0, pv + 0.25)
                         hists.append(hh)
                         a.test.ret = (float(core.fr(ps["p"])), hh)
                         a.test.seen = None
@@ -142,6 +147,7 @@ def run(pid, tier):
         raise core.MachineryError(res.error[:2000])
     if res.violated:
         rep.violation("AuditFlow.tla", f"mc:{res.violated}", f"TLC: {res.violated} violated", {"cex": res.cex[:3000]})
+    core.require_actions(res, ["HNext"], "AuditFlowMC")
     b2 = core.beh_lines(res)
     rep.cov["behaviours_generated_depth2"] = len(b2)
     if tier == "quick":      # every behaviour of the small configurations, a seeded sample of the three-assertion ones
